@@ -72,6 +72,14 @@ def gen(rng, tier, ctx):
         if r < 0.17:
             opl.append({"op": "restart", "entropy": rng.randint(0, 2 ** 32)})
             continue
+        if rng.random() < 0.06:
+            # a request the generator refuses (out of range, NaN): only history for the requests after it
+            bad = dict(cur)
+            bad[rng.choice(["rb", "lb", "tb", "lt"])] = rng.choice([float("nan"), 0.0, 1.0, -0.5, float("inf")])
+            if rng.random() < 0.3:
+                bad["width"] = rng.choice([0, -1])
+            opl.append({"op": "gen_cli", "params": bad, "refused": True, "same_process": session or rng.random() < 0.5,
+                        "entropy": rng.randint(0, 2 ** 32)})
         p = dict(cur)
         m = rng.random()
         key = rng.choice(["rb", "lb", "tb", "lt"])
@@ -150,6 +158,11 @@ def execute(spec, w, ctx):
             w.restart(op.get("entropy", 0))
             continue
         if kind not in ("gen_cli", "gen_manual"):
+            continue
+        if op.get("refused"):
+            out, before, after, changed, wopens = genops.run_gen(w, op, {})
+            events.append([i_op, "refused-request", out["status"], out.get("etype")])
+            w.fired("refused-request-in-history")
             continue
         want = genops.want_fields(op)
         if any(want[k] is None for k in want):
